@@ -1776,7 +1776,8 @@ func (sc *c06Scanner) scans(fn *ssa.Function) []*c06Scan {
 		if !ok || !c06CountsFromZero(sl.Header, bo) {
 			continue
 		}
-		labels, ok := fi.mustPassBetween([]int{sl.Body.Index}, map[int]bool{sl.Header.Index: true})
+		// the edges a re-test of an already decided condition cannot take (c06RetestDead) are not ways through the iteration
+		labels, ok := fi.mustPassBetweenCut([]int{sl.Body.Index}, map[int]bool{sl.Header.Index: true}, c06RetestDead(fn))
 		if !ok {
 			continue
 		}
@@ -2083,12 +2084,18 @@ type c06Explorer struct {
 	Steps    int
 	Overflow bool
 	outs     []c06XOut
+	// Blind: the loops over a slice (by the site of their header) that decide on the expiry of a certificate and in which
+	// an iteration can go round without comparing the element's NotAfter with time.Now() (blindIterations)
+	Blind     map[string]bool
+	Loops     int
+	blindDone map[*ssa.Function]bool
 }
 
 type c06XFrame struct {
 	fn       *ssa.Function
 	lift     func(string) string
 	ip       *Interp
+	fi       *FnInfo
 	expScans map[*ssa.Call]*c06Scan
 	expEdge  map[*ssa.BasicBlock]int8
 	depth    int
@@ -2110,7 +2117,7 @@ type c06XOut struct {
 }
 
 func (x *c06Explorer) newFrame(fn *ssa.Function, lift func(string) string, parent *c06XFrame) *c06XFrame {
-	fr := &c06XFrame{fn: fn, lift: lift, parent: parent, expScans: map[*ssa.Call]*c06Scan{}, expEdge: map[*ssa.BasicBlock]int8{}}
+	fr := &c06XFrame{fn: fn, fi: x.w.Info(fn), lift: lift, parent: parent, expScans: map[*ssa.Call]*c06Scan{}, expEdge: map[*ssa.BasicBlock]int8{}}
 	if parent != nil {
 		fr.depth = parent.depth + 1
 	}
@@ -2144,6 +2151,7 @@ func (x *c06Explorer) newFrame(fn *ssa.Function, lift func(string) string, paren
 			fr.expScans[s.Call] = s
 		}
 	}
+	x.blindIterations(fr)
 	fr.ip = &Interp{Fn: fn, TrackStrings: true, IntTypes: map[string]bool{"*": true}} // integer constants are tracked: a helper may answer with an enumeration
 	fr.ip.Hook = func(in ssa.Instruction, env map[ssa.Value]AVal) (AVal, bool) {
 		if call, ok := in.(*ssa.Call); ok {
@@ -2181,13 +2189,25 @@ func (fr *c06XFrame) expiredEdge(from, to *ssa.BasicBlock) bool {
 	r, ok := fr.expEdge[from]
 	if !ok {
 		r = -1
-		op, args := splitTopArgs(fr.lift(c06Canon(condLabel(iff.Cond, true))))
-		if op == "BEFORE" && len(args) == 2 && strings.HasSuffix(args[0], "].NotAfter") && args[1] == "call:time.Now()" {
+		if fr.expiredLabel(condLabel(iff.Cond, true)) {
 			r = 1
+		} else if comp := fr.fi.composeCond(iff.Cond, true); comp != nil && comp.Complete {
+			// the test handed to a module predicate: what every "true" answer of the predicate has established, in this frame
+			for l := range comp.Checked {
+				if fr.expiredLabel(l) {
+					r = 1
+				}
+			}
 		}
 		fr.expEdge[from] = r
 	}
 	return r == 1
+}
+
+// expiredLabel: the fact reads "an element's NotAfter is before time.Now()" in the frame of the timestamp function.
+func (fr *c06XFrame) expiredLabel(l string) bool {
+	op, args := splitTopArgs(fr.lift(c06Canon(l)))
+	return op == "BEFORE" && len(args) == 2 && strings.HasSuffix(args[0], "].NotAfter") && args[1] == "call:time.Now()"
 }
 
 func (fr *c06XFrame) onStack(g *ssa.Function) bool {
@@ -2880,4 +2900,281 @@ func c06ScannedLists(g *ssa.Function) []ssa.Value {
 func c06FromPolicyStores(w *World, fn *ssa.Function, v ssa.Value) bool {
 	p := &c06Prov{w: w, pkg: "verifier/trustpolicy", field: "TrustStores", active: map[string]bool{}}
 	return p.value(fn, v, nil, 0)
+}
+
+// ---------- the tsa-enabled helper never misses a listed tsa store -------------------------------------------------------
+
+// c06TsaNeverMissed: the converse of regime/tsa-enabled-helper. That rule says the helper answers true ONLY for a listed
+// tsa store; this one says it answers "none" (false, without an error) only when no listed store is a tsa store.
+//
+// Why the property needs it: the helper's answer is the input "a tsa store is listed" of the regime decision. When the
+// policy lists a tsa store and timestamp verification applies, the envelope must carry a valid countersignature; if the
+// helper can answer false although a tsa store is listed (the test was weakened by a conjunct, only part of the list is
+// looked at, an exit before the scan), the decision falls back to "judge the chain at time.Now()" and a signature
+// without (or with a forged) countersignature is accepted as long as its chain is valid now — fail-open.
+//
+// Formulated as a cut set, not on the spelling of the test: take the whole-list scans of the helper (c06Scanner: an
+// inline loop that counts 0,1,2,.., a slices.ContainsFunc/IndexFunc search, a module helper containing the loop) whose
+// per-element must-pass facts — what EVERY way through one iteration has established when the scan goes on to the next
+// element — include "the type prefix of this element is not tsa", in any of the forms the positive rule knows
+// (Cut(e, ":")#0 != "tsa", e[:Index(e, ":")] != "tsa", !HasPrefix(e, "tsa:")); remove the edges on which such a scan has
+// visited every element; then no exit that answers false with a possibly-nil error may be reachable from the entry.
+// Exits that answer true, exits whose error is provably non-nil (a malformed entry: the caller fails closed on them)
+// and exits guarded by "the list is empty" are not "none" answers over a non-empty list and are left alone.
+// Nested ifs, swapped operands, a switch, the test in a small predicate (composed by the engine) yield the same facts.
+func c06TsaNeverMissed(c *Ctx, sc *c06Scanner, G *ssa.Function) {
+	w := c.W
+	fi := w.Info(G)
+	rule := "the tsa-enabled helper answers false without an error only after every element of the scanned trust stores failed the test \"type prefix equals tsa\" (a listed tsa store is never missed)"
+	targets := map[int]bool{}
+	for _, b := range G.Blocks {
+		r, ok := blockTerm(b).(*ssa.Return)
+		if !ok || len(r.Results) != 2 {
+			continue
+		}
+		if v, isB := boolConst(r.Results[0]); isB && v {
+			continue // answers "listed"
+		}
+		if fi.nonNil(r.Results[1], b) {
+			continue // an error exit
+		}
+		targets[b.Index] = true
+	}
+	c.Evals++
+	if len(targets) == 0 {
+		c.Unk("regime/tsa-store-never-missed", rule, w.FnPos(G), "the helper has no exit that answers false without an error")
+		return
+	}
+	cut := map[edgeKey]bool{}
+	var chains []string
+	for _, s := range sc.scans(G) {
+		if len(s.Pass) == 0 || !c06NotTsaFact(s.Facts, s.Chain+"[*]") {
+			continue
+		}
+		for k := range s.Pass {
+			cut[k] = true
+		}
+		chains = append(chains, s.Chain)
+	}
+	if len(chains) == 0 {
+		c.Bad("regime/tsa-store-never-missed", rule, w.FnPos(G), "no whole-list scan of the helper establishes for every element that its type prefix is not tsa before going on: a listed tsa store can be passed over")
+		return
+	}
+	// exits guarded by "the list is empty" need no scan
+	asub := c06AllocSub(G)
+	for bi := range targets {
+		gl := fi.GuardsOf(blockTerm(G.Blocks[bi]))
+		for l := range gl {
+			l = asub.apply(l)
+			for _, ch := range chains {
+				if l == "EQ(len("+ch+"),const:0)" || l == "EQ("+ch+",nil)" {
+					delete(targets, bi)
+				}
+			}
+		}
+	}
+	for k := range c06RetestDead(G) {
+		cut[k] = true
+	}
+	var wit []string
+	for bi := range targets {
+		if bi == 0 || fi.reachHit(entryState(), cut, map[int]bool{bi: true}) {
+			wit = append(wit, fi.blockPos(G.Blocks[bi]))
+		}
+	}
+	sort.Strings(wit)
+	c.Check(len(wit) == 0, "regime/tsa-store-never-missed", rule, w.FnPos(G), "false is answered without an error on a path that has not seen every listed store fail the tsa test", wit...)
+}
+
+// c06NotTsaFact: the facts say that the type prefix of elem (what precedes its first ":") is not "tsa".
+func c06NotTsaFact(facts map[string]bool, elem string) bool {
+	for l := range facts {
+		switch l {
+		case `NE(call:strings.Cut(` + elem + `,const:":")#0,const:"tsa")`, `F(call:strings.HasPrefix(` + elem + `,const:"tsa:"))`:
+			return true
+		}
+	}
+	return false
+}
+
+// c06RetestDead: the edges of fn that cannot be taken because the very same SSA value was already branched on: block b2
+// tests a value (negations stripped) that a dominating block b1 tested, and b2 is only reachable through one successor of
+// b1 (that successor has b1 as its single predecessor and dominates b2). An SSA value is computed once per execution of
+// its definition, and between that branch of b1 and b2 the definition cannot have run again without passing b1 again, so
+// b2 sees the value b1 saw: the edge of b2 for the opposite value is dead. (`if !found { return } ... if found { .. }`.)
+func c06RetestDead(fn *ssa.Function) map[edgeKey]bool {
+	dead := map[edgeKey]bool{}
+	for _, b2 := range fn.Blocks {
+		if2, ok := blockTerm(b2).(*ssa.If)
+		if !ok || len(b2.Succs) != 2 {
+			continue
+		}
+		t2 := true
+		c2 := stripNot(if2.Cond, &t2)
+		if _, isK := c2.(*ssa.Const); isK {
+			continue
+		}
+		for d := b2; d != nil && d.Idom() != nil; d = d.Idom() {
+			b1 := d.Idom()
+			if1, ok := blockTerm(b1).(*ssa.If)
+			if !ok || len(b1.Succs) != 2 || b1.Succs[0] == b1.Succs[1] || len(d.Preds) != 1 {
+				continue
+			}
+			t1 := true
+			if stripNot(if1.Cond, &t1) != c2 {
+				continue
+			}
+			k := -1
+			for j, sc := range b1.Succs {
+				if sc == d {
+					k = j
+				}
+			}
+			if k < 0 {
+				continue
+			}
+			val := (k == 0) == t1 // the value of c2 on the way to b2
+			for j := 0; j < 2; j++ {
+				if ((j == 0) == t2) != val {
+					dead[edgeKey{b2.Index, j}] = true
+				}
+			}
+		}
+	}
+	return dead
+}
+
+// ---------- the decision "no certificate is expired" looks at every certificate ------------------------------------------
+
+// expiredTest: the block branches on "this element's NotAfter is before time.Now()" (either polarity).
+func (fr *c06XFrame) expiredTest(b *ssa.BasicBlock) bool {
+	iff, ok := blockTerm(b).(*ssa.If)
+	if !ok || len(b.Succs) != 2 {
+		return false
+	}
+	for _, truth := range []bool{true, false} {
+		if fr.expiredLabel(condLabel(iff.Cond, truth)) {
+			return true
+		}
+		// handed to a module predicate: it is this test only if one answer establishes "expired" and the other "not expired"
+		// (a predicate that answers false for other reasons as well leaves a way round the comparison)
+		yes, no := fr.fi.composeCond(iff.Cond, truth), fr.fi.composeCond(iff.Cond, !truth)
+		if yes == nil || no == nil || !yes.Complete || !no.Complete {
+			continue
+		}
+		exp, notExp := false, false
+		for l := range yes.Checked {
+			exp = exp || fr.expiredLabel(l)
+		}
+		for l := range no.Checked {
+			op, args := splitTopArgs(fr.lift(c06Canon(l)))
+			notExp = notExp || (op == "NOTBEFORE" && len(args) == 2 && strings.HasSuffix(args[0], "].NotAfter") && args[1] == "call:time.Now()")
+		}
+		if exp && notExp {
+			return true
+		}
+	}
+	return false
+}
+
+// blindIterations: the decision table follows paths; a path that goes round the deciding loop without testing the
+// certificate of that iteration has "not seen an expired certificate" and is judged like a path that saw an unexpired
+// one. That is only right if no such way round exists. So, for every loop over a slice of a function the decision is
+// followed through — in the timestamp function itself only the loops before the decision (the timestamp regime can be
+// reached from them, and they cannot be reached from it; the valid-now scan and the loops of the regime are judged by
+// their own rules) — that contains a test "NotAfter is before time.Now()": with both edges of these tests removed (and
+// the edges a re-test cannot take, c06RetestDead), the loop header is not reachable from the loop body inside the loop.
+// A cut set: it does not matter how the test is spelled, only that every way round passes it. A weakened test
+// (`len(chain) > 1 && now.After(NotAfter)`) has a way round that skips it: an expired certificate is then not noticed,
+// afterCertExpiry does not reach the timestamp regime and the chain is judged at time.Now() instead of the
+// countersignature's time.
+func (x *c06Explorer) blindIterations(fr *c06XFrame) {
+	if x.blindDone == nil {
+		x.blindDone = map[*ssa.Function]bool{}
+		x.Blind = map[string]bool{}
+	}
+	fn := fr.fn
+	if x.blindDone[fn] {
+		return
+	}
+	x.blindDone[fn] = true
+	// tests: the branches both of whose edges decide the comparison; learns: the branches one edge of which tells the
+	// decision table "expired" (a predicate that answers false for other reasons too is of the second kind only)
+	var tests, learns []*ssa.BasicBlock
+	for _, b := range fn.Blocks {
+		if fr.expiredTest(b) {
+			tests = append(tests, b)
+			learns = append(learns, b)
+		} else if len(b.Succs) == 2 && fr.expiredEdge(b, b.Succs[0]) {
+			learns = append(learns, b)
+		}
+	}
+	if len(learns) == 0 {
+		return
+	}
+	fi := x.w.Info(fn)
+	dead := c06RetestDead(fn)
+	for _, sl := range sliceLoops(fn) {
+		lb := loopBlocks(sl.Header)
+		cut := map[edgeKey]bool{}
+		for _, b := range tests {
+			if lb[b.Index] {
+				cut[edgeKey{b.Index, 0}] = true
+				cut[edgeKey{b.Index, 1}] = true
+			}
+		}
+		decides := false
+		for _, b := range learns {
+			decides = decides || lb[b.Index]
+		}
+		if !decides || !lb[sl.Body.Index] {
+			continue
+		}
+		if fr.parent == nil && !x.beforeDecision(sl.Header) {
+			continue
+		}
+		x.Loops++
+		for k := range dead {
+			cut[k] = true
+		}
+		for bi := range lb {
+			for j, t := range fn.Blocks[bi].Succs {
+				if !lb[t.Index] {
+					cut[edgeKey{bi, j}] = true
+				}
+			}
+		}
+		if fi.reachHit([]state{{sl.Body.Index, 0, -1}}, cut, map[int]bool{sl.Header.Index: true}) {
+			x.Blind[x.w.InstrPos(blockTerm(sl.Header))] = true
+		}
+	}
+}
+
+// beforeDecision: a stop block (the timestamp regime) is reachable from b, and b is not reachable from a stop block.
+func (x *c06Explorer) beforeDecision(b *ssa.BasicBlock) bool {
+	reach := func(from []*ssa.BasicBlock) map[*ssa.BasicBlock]bool {
+		seen := map[*ssa.BasicBlock]bool{}
+		stack := append([]*ssa.BasicBlock{}, from...)
+		for len(stack) > 0 {
+			c := stack[len(stack)-1]
+			stack = stack[:len(stack)-1]
+			for _, t := range c.Succs {
+				if !seen[t] {
+					seen[t] = true
+					stack = append(stack, t)
+				}
+			}
+		}
+		return seen
+	}
+	fromB := reach([]*ssa.BasicBlock{b})
+	var stops []*ssa.BasicBlock
+	hit := false
+	for sb := range x.stops {
+		stops = append(stops, sb)
+		if fromB[sb] {
+			hit = true
+		}
+	}
+	return hit && !reach(stops)[b] && !x.stops[b]
 }
